@@ -766,6 +766,7 @@ impl<'tcx> Cx<'tcx> {
         }
         s.push_str("],\"bodies\":{");
         let mut first = true;
+        let mut stolen: Vec<String> = Vec::new();
         for owner in tcx.hir_body_owners() {
             let dk = tcx.def_kind(owner);
             let kind = match dk {
@@ -788,6 +789,12 @@ impl<'tcx> Cx<'tcx> {
                 continue;
             }
             let steal = tcx.mir_built(owner);
+            if steal.is_stolen() {
+                // a const/static whose MIR was already consumed by const evaluation while an earlier
+                // body was being printed; recorded so that the analysis can fail closed if it matters
+                stolen.push(format!("{}:{}", kind, self.id(did)));
+                continue;
+            }
             let body = steal.borrow();
             if !first {
                 s.push(',');
@@ -837,7 +844,9 @@ impl<'tcx> Cx<'tcx> {
             s.push_str(&self.body(owner, &body));
             s.push('}');
         }
-        s.push_str("}}");
+        s.push_str("},\"stolen\":[");
+        s.push_str(&stolen.iter().map(|x| esc(x)).collect::<Vec<_>>().join(","));
+        s.push_str("]}");
         s
     }
 }
